@@ -58,7 +58,15 @@ def run_fw(pid, tier, seed, replay, ctx, gens, tags, mech=None, budget=None):
             texts.append(("corpus:" + os.path.basename(c), out))
         for kind, nq, nt in gens:
             n = nq if tier == "quick" else nt
-            rc, out = sh([ctx["HBIN"], "fw-gen", "--kind", kind, "--seed", str(seed), "--cases", str(n)], timeout=3600)
+            if kind.startswith("exh"):
+                # bounded-exhaustive family: exh:<depth>:<quick stride>:<thorough stride>
+                _, depth, sq, st = kind.split(":")
+                stride = sq if tier == "quick" else st
+                rc, out = sh([ctx["HBIN"], "fw-exh", "--depth", depth, "--stride", stride, "--start", str(seed % int(stride)),
+                              "--seed", str(seed), "--cases", str(n)], timeout=7200)
+                out = "\n".join(l for l in out.split("\n") if not l.startswith("exh depth="))
+            else:
+                rc, out = sh([ctx["HBIN"], "fw-gen", "--kind", kind, "--seed", str(seed), "--cases", str(n)], timeout=3600)
             if rc != 0:
                 return {"evaluations": 0, "model_disagreements": [f"harness failed for kind {kind}: {out[-500:]}"]}
             texts.append((kind, out))
@@ -137,8 +145,10 @@ def fw(gens, tags, mech=None, **kw):
 
 
 PROPS = {
-    "C05": fw([("general", 1500, 40000)], ALL_FW_TAGS,
-              assumptions=["the correspondence samples histories; the bounded-exhaustive family of the property's quantifier is part of the thorough tier"]),
+    "C05": fw([("general", 1500, 40000), ("exh:2:677:1", 2000, 1400000), ("exh:3:9497:97", 2000, 200000)], ALL_FW_TAGS,
+              assumptions=["the correspondence samples histories; the bounded-exhaustive family of the property's quantifier (8 machine sets of 1-3 small machines, full event alphabet "
+                           "with known/unknown ids, 4 clock patterns incl. backwards, 6^3 scripted draw words around the dyadic thresholds) is enumerated completely at depth 2 in the thorough "
+                           "tier and strided at depth 3; quick tier strides both"]),
     "C01": fw([("general", 2500, 60000)], {"res", "len", "L"}, mech=["LR", "CZ", "SIG", "END", "batch"],
               assumptions=["u64 packet counters are modelled as unbounded naturals (overflow needs 2^64 reported events)",
                            "machines have the shape of the Rust types (13 transition slots); proved for everything the bincode decoder accepts (C11)"]),
